@@ -200,24 +200,34 @@ func ruleDeclareThenInit(c *Ctx, r *Report, rule string) {
 				if !ok {
 					return true
 				}
-				be, ok := stripParens(ifs.Cond).(*ast.BinaryExpr)
+				atoms, pure := c.nnf(ifs.Cond, true, nil).conjuncts()
+				if !pure || len(atoms) != 1 {
+					return true
+				}
+				b, ok := c.boundOf(atoms[0])
 				if !ok {
 					return true
 				}
-				if sel, ok := stripParens(be.X).(*ast.SelectorExpr); ok && sel.Sel.Name == "depth" {
-					if k, isC := c.intConst(be.Y); isC && k == -1 && be.Op == token.EQL {
-						// body must leave the iteration (continue) without returning an index
-						leaves := false
-						for _, s := range ifs.Body.List {
-							if bs, ok := s.(*ast.BranchStmt); ok && bs.Tok == token.CONTINUE {
-								leaves = true
-							}
-							if _, ok := s.(*ast.ReturnStmt); ok {
-								leaves = false
-							}
-						}
-						okSkip = leaves
+				sel, ok := stripParens(b.X).(*ast.SelectorExpr)
+				if !ok || sel.Sel.Name != "depth" {
+					return true
+				}
+				leaves, returns := false, false
+				for _, s := range ifs.Body.List {
+					if bs, ok := s.(*ast.BranchStmt); ok && bs.Tok == token.CONTINUE {
+						leaves = true
 					}
+					if _, ok := s.(*ast.ReturnStmt); ok {
+						returns = true
+					}
+				}
+				switch {
+				case b.Lo != nil && b.Hi != nil && *b.Lo == -1 && *b.Hi == -1:
+					// depth == -1: skip this local
+					okSkip = leaves && !returns
+				case b.Ne != nil && *b.Ne == -1:
+					// depth != -1: only then return the index
+					okSkip = returns
 				}
 				return true
 			})
@@ -286,23 +296,36 @@ func ruleDupScope(c *Ctx, r *Report, rule string) {
 					}
 				}
 			}
-			be, ok := stripParens(ifs.Cond).(*ast.BinaryExpr)
-			if !ok {
+			atoms, pure := c.nnf(ifs.Cond, true, nil).conjuncts()
+			if !pure {
 				continue
 			}
-			if hasBreak && be.Op == token.LAND {
-				// local.depth != -1 && local.depth < p.scope.depth
-				l, ok1 := stripParens(be.X).(*ast.BinaryExpr)
-				rr, ok2 := stripParens(be.Y).(*ast.BinaryExpr)
-				if ok1 && ok2 {
-					k, isC := c.intConst(l.Y)
-					if l.Op == token.NEQ && isC && k == -1 && rr.Op == token.LSS && c.fieldPath(rr.Y) == "<parser>.scope.depth" {
-						okBreak = true
+			if hasBreak {
+				// local.depth != -1 && local.depth < p.scope.depth (any equivalent spelling)
+				ne, lt, extra := false, false, 0
+				for _, a := range atoms {
+					if b, ok := c.boundOf(a); ok && b.Ne != nil && *b.Ne == -1 {
+						if sel, ok := stripParens(b.X).(*ast.SelectorExpr); ok && sel.Sel.Name == "depth" {
+							ne = true
+							continue
+						}
 					}
+					if rel, ok := c.relOf(a); ok && rel.Op == token.LSS && c.fieldPath(rel.R) == "<parser>.scope.depth" {
+						if sel, ok := stripParens(rel.L).(*ast.SelectorExpr); ok && sel.Sel.Name == "depth" {
+							lt = true
+							continue
+						}
+					}
+					extra++
+				}
+				if ne && lt && extra == 0 {
+					okBreak = true
 				}
 			}
-			if hasErr && be.Op == token.EQL {
-				okDup = true
+			if hasErr && len(atoms) == 1 {
+				if rel, ok := c.relOf(atoms[0]); ok && rel.Op == token.EQL {
+					okDup = true
+				}
 			}
 		}
 	}
